@@ -204,3 +204,472 @@ Section Reachable.
     apply G. lia.
   Qed.
 End Reachable.
+
+(* ======================================================================================= *)
+(* Termination: every step decreases a natural-number measure                                *)
+(* ======================================================================================= *)
+
+(* cost of a message: 3 steps to send it, then (in its queue) 4 + the cost of its children *)
+Fixpoint mw (m : msg) : nat :=
+  match m with
+  | Msg _ ks => 7 + ((fix go (l : list msg) : nat :=
+                        match l with [] => 0 | k :: r => mw k + go r end) ks)
+  end.
+Definition mws (l : list msg) : nat :=
+  (fix go (l : list msg) : nat := match l with [] => 0 | k :: r => mw k + go r end) l.
+Lemma mw_Msg d ks : mw (Msg d ks) = 7 + mws ks.
+Proof. reflexivity. Qed.
+Lemma mws_cons m r : mws (m :: r) = mw m + mws r.
+Proof. reflexivity. Qed.
+Lemma mws_nil : mws [] = 0.
+Proof. reflexivity. Qed.
+Opaque mw mws.
+
+Definition tm_main (n : nat) (pc : mpc) : nat :=
+  match pc with
+  | MDone => 0 | MWaitRec => 1 | MWake2 => 2 | MWake1 => 3
+  | MCleanup k => 4 + (n - k)
+  | MSleep => 5 + n | MWaitQ => 6 + n | MLoadTotal => 7 + n | MWaitReady => 8 + n
+  | MDec3 => 9 + n | MDec2 => 10 + n | MDec1 => 11 + n
+  | MSetUnlock => 12 + n | MSetClose => 13 + n | MSetBody => 14 + n | MSetLock => 15 + n
+  | MWaitStd => 16 + n
+  end.
+
+Definition pbase (src : option nat) : nat := if is_cyc src then 4 else 0.
+
+Definition tm_proc (p : proc) : nat :=
+  match p_pc p with
+  | PRecv => 1 | PEnd => 0 | PFin1 => 4 | PFin2 => 3 | PFin3 => 2
+  | PInc1 m r => mw m + mws r + pbase (p_src p)
+  | PInc2 m r => match m with Msg _ ks => 6 + mws ks end + mws r + pbase (p_src p)
+  | PSend m r => match m with Msg _ ks => 5 + mws ks end + mws r + pbase (p_src p)
+  | PDrop1 r => 3 + mws r + pbase (p_src p)
+  | PDrop2 r => 2 + mws r + pbase (p_src p)
+  | PDrop3 r => 1 + mws r + pbase (p_src p)
+  end.
+Arguments tm_proc !p /.
+
+Definition fw (q : qmsg) : nat := 4 + mws (q_kids q).
+
+Definition measure (s : state) : nat :=
+  sumn (tm_main (st_n s)) (st_main s) + sumn tm_proc (st_proc s) + sumn fw (st_flight s) +
+  (if st_cancel s then 0 else 1).
+
+Lemma tm_after o src r : tm_proc (mkProc o src (after (is_cyc src) r)) = mws r + pbase src.
+Proof.
+  destruct r as [|m r]; simpl.
+  - unfold pbase. destruct (is_cyc src); reflexivity.
+  - rewrite mws_cons. reflexivity.
+Qed.
+
+Theorem step_decreases s t s' : step s t = Some s' -> measure s' < measure s.
+Proof.
+  intro H. unfold measure. destruct t as [i|k|]; simpl in H.
+  - destruct (nth_error (st_main s) i) as [pc|] eqn:Hi; [|discriminate].
+    destruct (step_main_frame _ _ _ _ H) as (F1 & F2 & F3 & F4 & _).
+    rewrite F1, F2, F3, F4.
+    pose proof (fun x => sumn_upd (tm_main (st_n s)) i x pc _ Hi) as U.
+    assert (G : exists pc', st_main s' = upd i pc' (st_main s) /\ tm_main (st_n s) pc' < tm_main (st_n s) pc).
+    { unfold step_main, after_wait in H.
+      destruct pc; simpl in H; unfold a_lock, a_set_body in H; simpl in H; step_cases H; simpl;
+        eexists; (split; [reflexivity|]);
+        repeat match goal with |- context[if ?c then _ else _] => destruct c eqn:? end;
+        simpl; try lia. }
+    destruct G as (pc' & Em & Hlt). rewrite Em. specialize (U pc'). lia.
+  - destruct (nth_error (st_proc s) k) as [pr|] eqn:Hk; [|discriminate].
+    destruct (step_proc_frame _ _ _ _ H) as (F1 & F2 & _ & _ & _ & _ & Fc & _).
+    rewrite F1, F2, Fc.
+    destruct pr as [o [a|] pc];
+    pose proof (fun x => sumn_upd tm_proc k x _ _ Hk) as U;
+    unfold step_proc in H; simpl in H;
+    destruct pc as [|m r|m r|[d ks] r|r|r|r| | | |]; simpl in H; step_cases H;
+      try match goal with
+          | T : take_first _ _ _ = Some _ |- _ =>
+            pose proof (proj2 (proj2 (proj2 (proj2 (proj2 (take_first_spec _ _ _ _ _ T))))) fw) as TS
+          end;
+      repeat (match goal with |- context[if ?c then _ else _] => destruct c eqn:? end);
+      simpl;
+      match goal with |- context[sumn tm_proc (upd k ?x _)] => pose proof (U x) as Ux end;
+      try (change true with (is_cyc (Some a)) in Ux at 1; rewrite tm_after in Ux);
+      try (change false with (is_cyc None) in Ux at 1; rewrite tm_after in Ux); simpl in Ux; rewrite ?sumn_app; simpl; unfold fw, pbase in *; simpl in *;
+      rewrite ?mw_Msg, ?mws_cons, ?mws_nil in *;
+      try (destruct m as [dm km]; rewrite ?mw_Msg in * );
+      try lia.
+  - destruct (st_cancel s) eqn:Ec; [discriminate|]. inversion H; subst. simpl. lia.
+Qed.
+
+(* sequences of successful steps *)
+Inductive steps : state -> list tid -> state -> Prop :=
+| steps_nil s : steps s [] s
+| steps_cons s t s1 r s2 : step s t = Some s1 -> steps s1 r s2 -> steps s (t :: r) s2.
+
+Theorem schedule_length_bounded s sched s' : steps s sched s' -> length sched + measure s' <= measure s.
+Proof.
+  induction 1 as [|s t s1 r s2 H _ IH]; simpl; [lia|].
+  pose proof (step_decreases _ _ _ H). lia.
+Qed.
+
+Lemma steps_reach s0 s sched s' : reach s0 s -> steps s sched s' -> reach s0 s'.
+Proof. intros R St. induction St; auto. apply IHSt. eapply reach_step; eauto. Qed.
+
+(* ======================================================================================= *)
+(* Absence of deadlock                                                                       *)
+(* ======================================================================================= *)
+
+(* program points whose operation can always be executed *)
+Definition nb_main (pc : mpc) : nat :=
+  match pc with
+  | MWaitStd | MSetLock | MWaitReady | MWaitQ | MSleep | MWaitRec | MDone => 0
+  | _ => 1
+  end.
+Definition nb_proc (p : proc) : nat :=
+  match p_pc p, p_src p with
+  | PEnd, _ => 0
+  | PRecv, Some _ => 0
+  | _, _ => 1
+  end.
+Arguments nb_proc !p /.
+
+Lemma nb_main_enabled s i pc :
+  nth_error (st_main s) i = Some pc -> nb_main pc = 1 -> exists s', step s (TM i) = Some s'.
+Proof.
+  intros Hi Hnb. simpl. rewrite Hi. unfold step_main.
+  destruct pc; simpl in Hnb; try discriminate; simpl; eauto;
+    repeat match goal with |- context[let (_, _) := ?c in _] => destruct c end; eauto.
+Qed.
+
+Lemma nb_proc_enabled s k p :
+  nth_error (st_proc s) k = Some p -> nb_proc p = 1 -> exists s', step s (TP k) = Some s'.
+Proof.
+  intros Hk Hnb. simpl. rewrite Hk. unfold step_proc. destruct p as [o src pc].
+  destruct pc as [|m r|m r|[d ks] r|r|r|r| | | |]; simpl in *; try discriminate; eauto;
+    try (destruct src; [discriminate|eauto]);
+    repeat match goal with
+           | |- context[if ?c then _ else _] => destruct c
+           | |- context[let (_, _) := ?c in _] => destruct c
+           end; eauto.
+Qed.
+
+Definition at_pc (x : mpc) (pc : mpc) : nat :=
+  match x, pc with
+  | MWaitStd, MWaitStd | MSetLock, MSetLock | MWaitReady, MWaitReady | MWaitQ, MWaitQ
+  | MSleep, MSleep | MWaitRec, MWaitRec => 1
+  | _, _ => 0
+  end.
+
+Lemma at_pc_eq x pc : at_pc x pc = 1 -> pc = x.
+Proof. destruct x, pc; simpl; intro H; try discriminate; reflexivity. Qed.
+
+Definition p_recv (p : proc) : nat := match p_pc p with PRecv => 1 | _ => 0 end.
+
+(* either some element has weight, or all have none *)
+Lemma sumn_cases {A} (f : A -> nat) l :
+  (exists i x, nth_error l i = Some x /\ 0 < f x) \/ (forall i x, nth_error l i = Some x -> f x = 0).
+Proof.
+  destruct (sumn f l) eqn:E.
+  - right. intros i x Hx. eapply sumn_zero; eauto.
+  - left. apply sumn_pos_ex. lia.
+Qed.
+
+Section Progress.
+  Variables (W : nat) (s : state).
+  Hypothesis I : Inv W s.
+
+  Let L := iL _ _ I.
+  Let A := iA _ _ I.
+  Let B := iB _ _ I.
+  Let C := iC _ _ I.
+  Let D := iD _ _ I.
+
+  (* a sleeping member whose predecessor in the chain is through can be woken; following the
+     chain upwards from any sleeping member one finds such a member *)
+  Lemma sleeper_enabled d :
+    forall i, nth_error (st_main s) i = Some MSleep -> st_n s - i <= d ->
+    (forall j pc, nth_error (st_main s) j = Some pc -> pc = MSleep \/ pc = MWaitRec \/ pc = MDone) ->
+    exists j s', step s (TM j) = Some s'.
+  Proof.
+    induction d as [|d IH]; intros i Hi Hd Hall.
+    - apply nth_error_lt in Hi. rewrite (il_main _ L) in Hi. lia.
+    - pose proof (ic_sleep _ C i Hi) as Nl. unfold is_leader in Nl. apply Nat.eqb_neq in Nl.
+      assert (Hin : i < st_n s) by (rewrite <- (il_main _ L); eapply nth_error_lt; eauto).
+      assert (Hsi : S i < length (st_main s)) by (rewrite (il_main _ L); lia).
+      destruct (nth_error_ex _ _ Hsi) as [pcs Hps].
+      destruct (Hall _ _ Hps) as [E|E].
+      + subst pcs. apply (IH (S i)); auto. lia.
+      + exists i. simpl. rewrite Hi. simpl.
+        destruct (ic_wake _ C (S i) _ Hps) as [_ Hw]. simpl in Hw.
+        assert (X : nth i (st_wake s) false = true) by (destruct E; subst; simpl in Hw; exact Hw).
+        rewrite X. eauto.
+  Qed.
+
+  Theorem progress : final s = false -> exists t s', t <> TC /\ step s t = Some s'.
+  Proof.
+    intro Hf.
+    assert (Done : forall t, (exists s', step s t = Some s') -> t <> TC -> exists t s', t <> TC /\ step s t = Some s').
+    { intros t [s' H] Ht. eauto. }
+    (* 1. somebody at a program point that never blocks *)
+    destruct (sumn_cases nb_main (st_main s)) as [(i & pc & Hi & Hp)|NbM].
+    { apply (Done (TM i)); [|discriminate]. eapply nb_main_enabled; eauto.
+      destruct pc; simpl in *; lia. }
+    destruct (sumn_cases nb_proc (st_proc s)) as [(k & p & Hk & Hp)|NbP].
+    { apply (Done (TP k)); [|discriminate]. eapply nb_proc_enabled; eauto.
+      destruct p as [o src pc]. destruct pc, src; simpl in *; lia. }
+    (* from here on every goroutine is at a blocking point or has returned *)
+    assert (ProcShape : forall k p, nth_error (st_proc s) k = Some p ->
+                        p_pc p = PEnd \/ (p_pc p = PRecv /\ exists a, p_src p = Some a)).
+    { intros k p Hk. specialize (NbP k p Hk). destruct p as [o src pc].
+      destruct pc, src; simpl in *; try discriminate; eauto. }
+    (* 2. wgStandard.Wait() *)
+    destruct (sumn_cases (at_pc MWaitStd) (st_main s)) as [(i & pc & Hi & Hp)|NoWS].
+    { apply (Done (TM i)); [|discriminate].
+      assert (pc = MWaitStd) by (apply at_pc_eq; destruct pc; simpl in *; lia). subst pc.
+      simpl. rewrite Hi. simpl.
+      assert (Sd : std_done i (st_proc s) = true).
+      { unfold std_done. apply forallb_forall. intros p Hp'.
+        apply In_nth_error in Hp' as [k Hk]. destruct (ProcShape k p Hk) as [E|[E [a Ea]]].
+        - rewrite E. destruct (p_src p); auto. apply orb_true_r.
+        - rewrite Ea. reflexivity. }
+      rewrite Sd. eauto. }
+    (* 3. Lock *)
+    destruct (sumn_cases (at_pc MSetLock) (st_main s)) as [(i & pc & Hi & Hp)|NoL].
+    { apply (Done (TM i)); [|discriminate].
+      assert (pc = MSetLock) by (apply at_pc_eq; destruct pc; simpl in *; lia). subst pc.
+      simpl. rewrite Hi. simpl. unfold a_lock.
+      destruct (sp_mu (st_pool s)) as [j|] eqn:Mu; eauto.
+      exfalso. destruct (ib_mu _ B j Mu) as (pcj & Hj & Hh).
+      specialize (NbM j pcj Hj). destruct pcj; simpl in *; discriminate. }
+    assert (MainShape1 : forall j pc, nth_error (st_main s) j = Some pc ->
+              pc = MWaitReady \/ pc = MWaitQ \/ pc = MSleep \/ pc = MWaitRec \/ pc = MDone).
+    { intros j pc Hj. specialize (NbM j pc Hj). specialize (NoWS j pc Hj). specialize (NoL j pc Hj).
+      destruct pc; simpl in *; try discriminate; auto. }
+    (* 4. <-ready *)
+    destruct (sumn_cases (at_pc MWaitReady) (st_main s)) as [(i & pc & Hi & Hp)|NoR].
+    { apply (Done (TM i)); [|discriminate].
+      assert (pc = MWaitReady) by (apply at_pc_eq; destruct pc; simpl in *; lia). subst pc.
+      simpl. rewrite Hi. simpl.
+      assert (Rd : sp_ready (st_pool s) = true).
+      { pose proof (ib_ready _ B) as Br.
+        assert (AF : all_false (sp_pool (st_pool s)) = true).
+        { apply all_false_intro. intros j Hj. rewrite (il_bits _ L), <- (il_main _ L) in Hj.
+          destruct (nth_error_ex _ _ Hj) as [pcj Hpj]. rewrite (ib_bits _ B j pcj Hpj).
+          destruct (MainShape1 _ _ Hpj) as [E|[E|[E|[E|E]]]]; subst; reflexivity. }
+        rewrite AF in Br. simpl in Br.
+        assert (NC : sumn mclose (st_main s) = 0).
+        { apply sumn_all_zero. intros j pcj Hpj.
+          destruct (MainShape1 _ _ Hpj) as [E|[E|[E|[E|E]]]]; subst; reflexivity. }
+        destruct (sp_ready (st_pool s)); simpl in *; auto; lia. }
+      rewrite Rd, orb_true_r. eauto. }
+    assert (MainShape2 : forall j pc, nth_error (st_main s) j = Some pc ->
+              pc = MWaitQ \/ pc = MSleep \/ pc = MWaitRec \/ pc = MDone).
+    { intros j pc Hj. specialize (NoR j pc Hj).
+      destruct (MainShape1 _ _ Hj) as [E|[E|[E|[E|E]]]]; subst; simpl in *; auto; discriminate. }
+    assert (Pend0 : sumn mpend (st_main s) = 0).
+    { apply sumn_all_zero. intros j pcj Hpj.
+      destruct (MainShape2 _ _ Hpj) as [E|[E|[E|E]]]; subst; reflexivity. }
+    assert (Hold0 : sumn phold (st_proc s) = 0).
+    { apply sumn_all_zero. intros k p Hk. destruct p as [o src pc].
+      destruct (ProcShape _ _ Hk) as [E|[E _]]; simpl in E; subst; reflexivity. }
+    (* 5. a queued message can be received *)
+    destruct (st_flight s) as [|q fl] eqn:Fl.
+    2:{ assert (Hq : In q (st_flight s)) by (rewrite Fl; left; reflexivity).
+        destruct (il_flight _ L q Hq) as [Ha Hb].
+        destruct (il_edges _ L _ _ Ha Hb) as (k & p & Hk & Ho & Hs).
+        apply (Done (TP k)); [|discriminate].
+        simpl. rewrite Hk. unfold step_proc. rewrite Hs, Ho.
+        destruct (ProcShape _ _ Hk) as [E|[E _]].
+        - exfalso. pose proof (id_pend _ _ D k p _ Hk Hs E) as Ec. rewrite Ho in Ec.
+          unfold edge_closed in Ec. apply Nat.ltb_lt in Ec.
+          assert (Q : sp_quiet (st_pool s) = true) by (apply (closed_quiet W s (q_src q) I Ha); lia).
+          pose proof (quiet_zero _ _ I Q) as Z. rewrite Fl in Z. simpl in Z. lia.
+        - rewrite E.
+          destruct (take_first (q_src q) (q_dst q) (st_flight s)) as [[x r]|] eqn:T.
+          + destruct (st_cancel s); eauto.
+          + exfalso. eapply take_first_none; eauto. }
+    (* 6. the latch is closed *)
+    assert (Q : sp_quiet (st_pool s) = true).
+    { pose proof (ia_inflight _ A) as Ai. rewrite Pend0, Hold0, Fl in Ai. simpl in Ai.
+      pose proof (proj2 (ia_zero _ A) Ai) as Z.
+      assert (N2 : nD2 s = 0).
+      { unfold nD2. rewrite (sumn_all_zero md2), (sumn_all_zero pd2); auto.
+        - intros k p Hk. destruct p as [o src pc].
+          destruct (ProcShape _ _ Hk) as [E|[E _]]; simpl in E; subst; reflexivity.
+        - intros j pcj Hpj. destruct (MainShape2 _ _ Hpj) as [E|[E|[E|E]]]; subst; reflexivity. }
+      assert (N3 : nD3 s = 0).
+      { unfold nD3. rewrite (sumn_all_zero md3), (sumn_all_zero pd3); auto.
+        - intros k p Hk. destruct p as [o src pc].
+          destruct (ProcShape _ _ Hk) as [E|[E _]]; simpl in E; subst; reflexivity.
+        - intros j pcj Hpj. destruct (MainShape2 _ _ Hpj) as [E|[E|[E|E]]]; subst; reflexivity. }
+      pose proof (ia_d3 _ A) as Ad. rewrite N3 in Ad.
+      destruct Z as [Z|Z]; [|lia]. rewrite Z in Ad.
+      destruct (sp_quiet (st_pool s)); simpl in *; auto; lia. }
+    destruct (sumn_cases (at_pc MWaitQ) (st_main s)) as [(i & pc & Hi & Hp)|NoQ].
+    { apply (Done (TM i)); [|discriminate].
+      assert (pc = MWaitQ) by (apply at_pc_eq; destruct pc; simpl in *; lia). subst pc.
+      simpl. rewrite Hi. simpl. rewrite Q. eauto. }
+    assert (MainShape3 : forall j pc, nth_error (st_main s) j = Some pc ->
+              pc = MSleep \/ pc = MWaitRec \/ pc = MDone).
+    { intros j pc Hj. specialize (NoQ j pc Hj).
+      destruct (MainShape2 _ _ Hj) as [E|[E|[E|E]]]; subst; simpl in *; auto; discriminate. }
+    (* 7. the wake chain *)
+    destruct (sumn_cases (at_pc MSleep) (st_main s)) as [(i & pc & Hi & Hp)|NoS].
+    { assert (pc = MSleep) by (apply at_pc_eq; destruct pc; simpl in *; lia). subst pc.
+      destruct (sleeper_enabled (st_n s) i Hi ltac:(lia) MainShape3) as (j & s' & Hs').
+      exists (TM j), s'. split; [discriminate|auto]. }
+    assert (MainShape4 : forall j pc, nth_error (st_main s) j = Some pc -> pc = MWaitRec \/ pc = MDone).
+    { intros j pc Hj. specialize (NoS j pc Hj).
+      destruct (MainShape3 _ _ Hj) as [E|[E|E]]; subst; simpl in *; auto; discriminate. }
+    (* 8. every queue is closed and empty: the goroutines of the cyclical senders return *)
+    destruct (sumn_cases p_recv (st_proc s)) as [(k & p & Hk & Hp)|NoRecv].
+    { apply (Done (TP k)); [|discriminate].
+      destruct (ProcShape _ _ Hk) as [E|[E [a Ea]]]; [unfold p_recv in Hp; rewrite E in Hp; lia|].
+      simpl. rewrite Hk. unfold step_proc. rewrite E, Ea, Fl. simpl.
+      destruct (il_proc _ L _ _ Hk) as [Lo Ls]. specialize (Ls a Ea).
+      assert (Hal : a < length (st_main s)) by (rewrite (il_main _ L); auto).
+      destruct (nth_error_ex _ _ Hal) as [pca Hpa].
+      destruct (ic_closed _ C a pca Hpa) as [Ecl _].
+      assert (Ecp : cpos (st_n s) pca = st_n s) by (destruct (MainShape4 _ _ Hpa); subst; reflexivity).
+      unfold edge_closed. rewrite Ecl, Ecp.
+      replace (p_owner p <? st_n s) with true by (symmetry; apply Nat.ltb_lt; auto). eauto. }
+    (* 9. wgRecursive.Wait() *)
+    destruct (sumn_cases (at_pc MWaitRec) (st_main s)) as [(i & pc & Hi & Hp)|NoW].
+    { apply (Done (TM i)); [|discriminate].
+      assert (pc = MWaitRec) by (apply at_pc_eq; destruct pc; simpl in *; lia). subst pc.
+      simpl. rewrite Hi. simpl.
+      assert (Rd : rec_done i (st_proc s) = true).
+      { unfold rec_done. apply forallb_forall. intros p Hp'.
+        apply In_nth_error in Hp' as [k Hk]. destruct (ProcShape k p Hk) as [E|[E _]].
+        - rewrite E. destruct (p_src p); auto. apply orb_true_r.
+        - specialize (NoRecv k p Hk). unfold p_recv in NoRecv. rewrite E in NoRecv. discriminate. }
+      rewrite Rd. eauto. }
+    (* 10. everything has returned *)
+    exfalso. unfold final in Hf. apply andb_false_iff in Hf as [Hf|Hf].
+    - assert (X : forallb main_terminal (st_main s) = true); [|congruence].
+      apply forallb_forall. intros pc Hpc. apply In_nth_error in Hpc as [j Hj].
+      specialize (NoW j pc Hj). destruct (MainShape4 _ _ Hj); subst; simpl in *; auto; discriminate.
+    - assert (X : forallb (fun p => is_pend (p_pc p)) (st_proc s) = true); [|congruence].
+      apply forallb_forall. intros p Hp. apply In_nth_error in Hp as [k Hk].
+      destruct (ProcShape _ _ Hk) as [E|[E _]]; [rewrite E; reflexivity|].
+      specialize (NoRecv k p Hk). unfold p_recv in NoRecv. rewrite E in NoRecv. discriminate.
+  Qed.
+End Progress.
+
+(* ======================================================================================= *)
+(* quiescence_complete                                                                       *)
+(* ======================================================================================= *)
+
+(* when the in-flight count is zero the latch is closed, or the thread that brought the count
+   to zero is inside the tail of dec() and closes it with its next one or two operations *)
+Theorem latch_closes W s :
+  Inv W s -> sp_inflight (st_pool s) = 0%Z ->
+  sp_quiet (st_pool s) = true \/
+  exists t s1, t <> TC /\ step s t = Some s1 /\
+               (sp_quiet (st_pool s1) = true \/
+                exists s2, step s1 t = Some s2 /\ sp_quiet (st_pool s2) = true).
+Proof.
+  intros I Z. destruct (sp_quiet (st_pool s)) eqn:Q; [left; reflexivity|right].
+  pose proof (ia_d3 _ (iA _ _ I)) as Ad. rewrite Q in Ad. simpl in Ad.
+  destruct (sp_zero (st_pool s)) eqn:Zr; simpl in Ad.
+  - (* the Swap has been done: somebody is about to close *)
+    unfold nD3 in Ad.
+    destruct (sumn_cases md3 (st_main s)) as [(i & pc & Hi & Hp)|N3].
+    + assert (pc = MDec3) by (destruct pc; simpl in Hp; try lia; reflexivity). subst pc.
+      exists (TM i). eexists. split; [discriminate|]. split.
+      * simpl. rewrite Hi. simpl. reflexivity.
+      * left. simpl. unfold a_close_quiet. rewrite Q. reflexivity.
+    + rewrite (sumn_all_zero md3) in Ad by assumption.
+      destruct (sumn_pos_ex pd3 (st_proc s) ltac:(lia)) as (k & p & Hk & Hp).
+      destruct p as [o src pc].
+      exists (TP k).
+      destruct pc; simpl in Hp; try lia.
+      * eexists. split; [discriminate|]. split; [simpl; rewrite Hk; unfold step_proc; simpl; reflexivity|].
+        left. simpl. unfold a_close_quiet. rewrite Q. reflexivity.
+      * eexists. split; [discriminate|]. split; [simpl; rewrite Hk; unfold step_proc; simpl; reflexivity|].
+        left. simpl. unfold a_close_quiet. rewrite Q. reflexivity.
+  - (* the Swap is still to be done by a thread that saw zero *)
+    pose proof (proj2 (ia_zero _ (iA _ _ I)) Z) as [X|N2]; [congruence|].
+    unfold nD2 in N2.
+    destruct (sumn_cases md2 (st_main s)) as [(i & pc & Hi & Hp)|N2m].
+    + assert (pc = MDec2) by (destruct pc; simpl in Hp; try lia; reflexivity). subst pc.
+      assert (Hil : i < length (st_main s)) by (eapply nth_error_lt; eauto).
+      exists (TM i). eexists. split; [discriminate|]. split.
+      * simpl. rewrite Hi. simpl. rewrite Zr. reflexivity.
+      * right. eexists. split.
+        -- simpl. rewrite nth_error_upd_eq by assumption. simpl. reflexivity.
+        -- simpl. unfold a_close_quiet. simpl. rewrite Q. reflexivity.
+    + rewrite (sumn_all_zero md2) in N2 by assumption.
+      destruct (sumn_pos_ex pd2 (st_proc s) ltac:(lia)) as (k & p & Hk & Hp).
+      assert (Hkl : k < length (st_proc s)) by (eapply nth_error_lt; eauto).
+      destruct p as [o src pc].
+      exists (TP k).
+      destruct pc; simpl in Hp; try lia.
+      * eexists. split; [discriminate|]. split;
+          [simpl; rewrite Hk; unfold step_proc; simpl; rewrite Zr; reflexivity|].
+        right. eexists. split.
+        -- simpl. rewrite nth_error_upd_eq by assumption. unfold step_proc. simpl. reflexivity.
+        -- simpl. unfold a_close_quiet. simpl. rewrite Q. reflexivity.
+      * eexists. split; [discriminate|]. split;
+          [simpl; rewrite Hk; unfold step_proc; simpl; rewrite Zr; reflexivity|].
+        right. eexists. split.
+        -- simpl. rewrite nth_error_upd_eq by assumption. unfold step_proc. simpl. reflexivity.
+        -- simpl. unfold a_close_quiet. simpl. rewrite Q. reflexivity.
+Qed.
+
+(* all members ready and nothing in flight or held means the counter is zero *)
+Lemma quiescent_zero W s : Inv W s -> quiescent s -> sp_inflight (st_pool s) = 0%Z.
+Proof.
+  intros I (Hm & Hf & Hp). rewrite (ia_inflight _ (iA _ _ I)), Hf.
+  rewrite (sumn_all_zero mpend) by assumption.
+  rewrite (sumn_all_zero phold); [reflexivity|].
+  intros k p Hk. specialize (Hp k p Hk). destruct p as [o src pc]. unfold idle in Hp.
+  destruct pc; simpl in *; tauto.
+Qed.
+
+Section Completes.
+  Variables (n np : nat) (std : list (nat * list msg)).
+  Hypothesis Hn : 1 <= n.
+  Hypothesis Hnp : 1 <= np.
+  Let s0 := init n np std.
+
+  Theorem quiescence_complete_latch s :
+    reach s0 s -> quiescent s ->
+    sp_quiet (st_pool s) = true \/
+    exists t s1, t <> TC /\ step s t = Some s1 /\
+                 (sp_quiet (st_pool s1) = true \/
+                  exists s2, step s1 t = Some s2 /\ sp_quiet (st_pool s2) = true).
+  Proof.
+    intros R Qs. pose proof (rI n np std Hn Hnp s R) as I.
+    eapply latch_closes; eauto. eapply quiescent_zero; eauto.
+  Qed.
+
+  (* no deadlock: a state in which no goroutine can take a step is torn down *)
+  Theorem no_deadlock_l s :
+    reach s0 s -> (forall t, t <> TC -> step s t = None) -> final s = true.
+  Proof.
+    intros R Hstuck. destruct (final s) eqn:F; auto.
+    destruct (progress _ _ (rI n np std Hn Hnp s R) F) as (t & s' & Ht & Hs).
+    rewrite (Hstuck t Ht) in Hs. discriminate.
+  Qed.
+
+  (* from every reachable state the goroutines alone (no cancellation needed) can finish, and
+     every schedule is finite: no run is longer than [measure s] *)
+  Theorem teardown_completes_l s :
+    reach s0 s -> exists sched s', steps s sched s' /\ final s' = true /\ ~ In TC sched.
+  Proof.
+    intro R. remember (measure s) as m eqn:Em. revert s R Em.
+    induction m as [m IH] using lt_wf_ind. intros s R Em.
+    destruct (final s) eqn:F.
+    - exists [], s. split; [constructor|]. split; auto.
+    - destruct (progress _ _ (rI n np std Hn Hnp s R) F) as (t & s1 & Ht & Hs).
+      pose proof (step_decreases _ _ _ Hs) as Hd.
+      destruct (IH (measure s1) ltac:(lia) s1 ltac:(eapply reach_step; eauto) eq_refl)
+        as (sched & s' & St & Fs & Nc).
+      exists (t :: sched), s'. split; [econstructor; eauto|]. split; auto.
+      intros [X|X]; [congruence|auto].
+  Qed.
+End Completes.
+
+Lemma reach_run_rr s0 fuel : forall s, reach s0 s -> reach s0 (run_rr fuel s).
+Proof.
+  induction fuel as [|f IH]; intros s R; simpl; auto.
+  destruct (final s); auto. apply IH. apply reach_run. exact R.
+Qed.
